@@ -175,6 +175,34 @@ done:
     free(pw); pv_api_free(s);
 }
 
+/* passwords whose decomposed form just fits the buffer (size-8 ... size-1 bytes), ending in characters of every UTF-8 width: the
+ * KDF must still receive exactly NFKD(password), to the last byte */
+static uint64_t n_longpw(void) { return pv_scaled(1200, 100000); }
+static void run_longpw(uint64_t idx, pv_rng* rng) {
+    enable_all(); g_rng = rng;
+    static const char* const TAILCH[] = { "\xc3\xa9", "\xc3\xb1", "\xc2\xb5", "\xce\xa9", "\xe3\x81\xb1", "\xea\xb0\x80", "\xef\xbc\xa1", "\xf0\x9f\x98\x80", "\xe2\x84\xab", "\xef\xac\x81", "e\xcc\x81", "z" };
+    char tail[96]; size_t tl = 0; int nt = 1 + (int)pv_randn(rng, 4);
+    for (int i = 0; i < nt; ++i) { const char* c = TAILCH[pv_randn(rng, sizeof TAILCH / sizeof *TAILCH)]; size_t l = strlen(c); memcpy(tail + tl, c, l); tl += l; }
+    tail[tl] = 0;
+    char* nft = pv_nfkd_alloc(tail); size_t tn = strlen(nft); free(nft);
+    long target = (long)POLYSEED_STR_SIZE - 1 - (long)(idx % 8);           /* size-8 .. size-1: everything that still fits */
+    long front = target - (long)tn; if (front < 1) return;
+    char* pw = pv_xmalloc((size_t)front + tl + 1);
+    for (long i = 0; i < front; ++i) pw[i] = (char)('a' + (i * 5 + (long)idx) % 26);
+    memcpy(pw + front, tail, tl + 1);
+    char* nf = pv_nfkd_alloc(pw); size_t nl = strlen(nf); free(nf);
+    if (nl >= POLYSEED_STR_SIZE) { free(pw); return; }
+    pv_countf(1, "longpw.nfkd_length.size-%ld", (long)POLYSEED_STR_SIZE - (long)nl);
+    pv_mseed m0; pv_gen_mseed(rng, 7, true, &m0);
+    polyseed_data* s = pv_seed_from_model(&m0);
+    if (s) {
+        pv_mseed m = m0; pv_w->kdf_mode = 0;
+        if (apply(s, &m, pw, "long-boundary") && verify(s, &m, rng, "after a buffer-filling password")) { PV_COUNT("longpw.ok", 1); PV_DISTINCT("nontrivial", pv_mix(pv_hash_str(pw), idx)); }
+        pv_api_free(s);
+    }
+    free(pw);
+}
+
 /* canonically equivalent spellings give the same result */
 static uint64_t n_equiv(void) { return pv_scaled(6000, 1500000); }
 static void run_equiv(uint64_t idx, pv_rng* rng) {
@@ -236,6 +264,6 @@ static void run_conc(uint64_t idx, pv_rng* rng) {
 }
 
 int main(int argc, char** argv) {
-    static const pv_section secs[] = { { "default", n_default, run_default }, { "crypt", n_crypt, run_crypt }, { "equivalent", n_equiv, run_equiv }, { "concurrent", n_conc, run_conc } };
+    static const pv_section secs[] = { { "default", n_default, run_default }, { "crypt", n_crypt, run_crypt }, { "equivalent", n_equiv, run_equiv }, { "longpw", n_longpw, run_longpw }, { "concurrent", n_conc, run_conc } };
     return pv_main(argc, argv, "C12", secs, (int)(sizeof secs / sizeof *secs), init, NULL);
 }
